@@ -105,7 +105,12 @@ class Work:
             n = self.n
         # data directories and dump folders with a blank and a non-ASCII character in their name now and then (paths are not inputs)
         odd = ' \u00e9' if prefix in ('dd', 'out', 'cl') and n % 4 == 1 and os.environ.get('RBP_VERIF_NO_AMBIENT') is None else ''
-        return os.path.join(self.dir, '%s%d%s' % (prefix, n, odd))
+        p = os.path.join(self.dir, '%s%d%s' % (prefix, n, odd))
+        if prefix in ('dd', 'cl') and n % 9 == 4 and os.environ.get('RBP_VERIF_NO_AMBIENT') is None:
+            # a data directory whose path ends like another coin's default folder: which coin is parsed is decided by -c alone
+            p = os.path.join(p, ['.dogecoin/blocks', '.namecoin', '.litecoin/blocks', '.bitcoin/testnet3/blocks'][(n // 9) % 4])
+            os.makedirs(os.path.dirname(p), exist_ok=True)
+        return p
 
     def mk(self, prefix='d'):
         p = self.sub(prefix)
@@ -237,7 +242,8 @@ def _open_up(root):
             for f in fn:
                 p = os.path.join(dp, f)
                 if not os.path.islink(p):
-                    os.chmod(p, 0o666)
+                    if os.stat(p).st_mode & 0o777 != 0:          # (files deliberately unreadable stay so)
+                        os.chmod(p, 0o666)
                 else:
                     t = os.path.realpath(p)
                     if os.path.isfile(t) and t.startswith(WORKROOT):
@@ -248,7 +254,7 @@ def _open_up(root):
 
 def run_parser(datadir, cb, dump=None, coin=None, start=None, end=None, verify=False, env=None, trace=None,
                fsize=None, nofile=None, timeout=60, threads=None, verbose=0, read_files=True, extra_args=(), mkdump=True,
-               abort_at=None, skip=None, release=None, pty=None, aslimit=None, force_amb=None, pin=None):
+               abort_at=None, skip=None, release=None, pty=None, aslimit=None, force_amb=None, pin=None, stdout_gone=False):
     """run the hooked binary; cb in csvdump|unspentcsvdump|balances|simplestats|opreturn.
     Ambient variation: options that must not influence any result (verbosity, size of the thread pool) are varied from run
     to run unless the caller fixes them, so that every check also exercises them."""
@@ -284,8 +290,8 @@ def run_parser(datadir, cb, dump=None, coin=None, start=None, end=None, verify=F
     if pin and shutil.which('taskset'):
         # the process may use a single CPU (cpuset, one-core container): the default pool has one thread
         args = ['taskset', '-c', str(sorted(os.sched_getaffinity(0))[amb % len(os.sched_getaffinity(0))])] + args
-    if coin:
-        args += ['-c', coin]
+    if coin and not (coin == 'bitcoin' and amb % 2 == 0 and os.environ.get('RBP_VERIF_NO_AMBIENT') is None):
+        args += ['-c', coin]         # (bitcoin is the default: half of the bitcoin runs leave the option out)
     if start is not None:
         args += ['-s', str(start)]
     if end is not None:
@@ -347,11 +353,13 @@ def run_parser(datadir, cb, dump=None, coin=None, start=None, end=None, verify=F
             # preexec_fn forces fork(); without it Python can use vfork/posix_spawn, which matters when the parent is large
             need_pre = fsize is not None or nofile is not None or abort_at is not None or aslimit is not None
             to_file = None
+            if stdout_gone:
+                pty = False
             use_pty = pty if pty is not None else (os.environ.get('RBP_VERIF_NO_AMBIENT') is None and amb % 13 == 6 and fsize is None and nofile is None)
             if use_pty:
                 rc, out, err = _run_on_pty(args, e, cwd, pre if need_pre else None, timeout, ids)
                 break
-            if os.environ.get('RBP_VERIF_NO_AMBIENT') is None and amb % 5 == 2 and fsize is None:
+            if os.environ.get('RBP_VERIF_NO_AMBIENT') is None and amb % 5 == 2 and fsize is None and not stdout_gone:
                 # (not under a file size limit: the limit would apply to this file as well)
                 # standard output is a regular file instead of a pipe (block buffering instead of none changes nothing)
                 os.makedirs(WORKROOT, exist_ok=True)
@@ -359,8 +367,13 @@ def run_parser(datadir, cb, dump=None, coin=None, start=None, end=None, verify=F
             try:
                 pr = subprocess.Popen(args, env=e, stdout=to_file or subprocess.PIPE, stderr=subprocess.PIPE, cwd=cwd,
                                       preexec_fn=pre if need_pre else None, **ids)
+                if stdout_gone and not to_file:
+                    # the reader of standard output has gone away (`... | head`): writes to it fail with EPIPE
+                    pr.stdout.close()
+                    pr.stdout = None
                 try:
                     out, err = pr.communicate(timeout=timeout)
+                    out = out or b''
                 except subprocess.TimeoutExpired:
                     _dump_stacks(pr.pid, amb)
                     pr.kill()
